@@ -64,10 +64,26 @@ it.  For every entry index (all of the index type), through the code as it is af
                         exactly the complete file's list `as`; get_attribute(k) / get_attribute(field) answer from that
                         list for every k / name.  Non-vacuity on `exImg7` (section data behind the header table):
                         244 bytes -> loads, 0 attributes; 248 bytes -> loads, the 2 attributes.
-Partial (what is NOT a theorem, covered by correspondence + oracle only): the PT_NOTE segment accessor on a prefix
-(`C17.prefix_sound_segment` says the segments of a successfully loaded prefix are the complete file's; the composition
-with segment_notes_reports_spec needs a segment clause in `PrefixLoaded` and a `prefix_segResident` lemma - not written),
-verneed / verdef / by-name / by-value / resolved relocation read-outs on a prefix.
+Props/ComposeTables4.lean (third round; `PrefixLoadedS` = `PrefixLoadedC` + the segment side: count, p_type, p_offset,
+p_filesz of the complete image; `prefixLoadedS_of_load`, `prefix_segResident` = the segment analogue of prefix_secResident_c:
+a segment's data on the prefix is absent or exactly the complete file's range, which then lies inside the prefix):
+  prefix_segment_notes_sound  [segment j not PT_NULL, its file range = Spec.encodeNotes ns, p_filesz <= 2^32-3] the PT_NOTE
+                        segment accessor on a prefix that loads reports count 0 / every index refused, or exactly the
+                        complete file's notes (count, and type/name/descriptor at EVERY 32-bit index).
+                        `prefix_segment_notes_sound_range`: the same for any segment type with the reference stated
+                        on `slice img p_offset p_filesz`.
+  prefix_byvalue_sound  [sh_entsize = sizeof(Sym)] get_symbol(value, ...) on a prefix, through whatever hash section
+                        the prefix shows: (false, "", {}) or found/attributes of the complete file's answer, the name
+                        empty or the complete file's.
+  prefix_verneed_sound / prefix_verdef_sound  [no hypothesis beyond i < e_shnum] the guarded version walkers on a prefix:
+                        refusal, or the complete file's answer (`specNeed` / `specDef`); refusal when the linked string
+                        table's data is not in the prefix.
+  prefix_byname_sound_partial  [ValidNames, image < 4 GiB] get_symbol(name, ...) on a prefix always returns; when the
+                        symbol data and the linked string data are both in the prefix the answer is the complete file's
+                        (`ByNameSpec`).  PARTIAL: in the two data-less cases nothing is proved about the answer.
+Partial (what is NOT a theorem, covered by correspondence + oracle only): the by-name answer when the symbol table's or
+its string table's data is not in the prefix; a PT_NULL segment with p_filesz != 0 on a prefix; resolved relocation
+read-outs on a prefix.
 Correspondence + oracle: every prefix (quick: a stratified sample plus all lengths around table
 and data boundaries; thorough: every length) of encoder-built images and small examples, eager and
 lazy; the oracle compares the prefix's observation with the complete file's observation, field by
